@@ -261,8 +261,14 @@ class Ref:
   def head_values(self, r, bind):
     args, nargs, value = r._norm_head
     out = [self.ev(a, bind) for a in args]
-    for k, v in nargs:
-      out.append(self.head_arg(v, bind))
+    # named arguments are columns *by name*: rules of one predicate may list them in any
+    # order; the column order is the one of the first rule
+    by_name = dict(nargs)
+    order = [k for k, _ in self.prog.rules_of(r.pred)[0].nargs]
+    if sorted(order) != sorted(by_name):
+      raise Unsupported('rules of %s have different named arguments' % r.pred)
+    for k in order:
+      out.append(self.head_arg(by_name[k], bind))
     if value is not None:
       out.append(self.head_arg(value, bind))
     return out
